@@ -85,7 +85,7 @@ def handle (legacy : Bool) (line : String) : String :=
                 specOf b ip iq
             let ink := if legacy && spec.startsWith "viol" then legacyClass p q else "-"
             id ++ "\t" ++ model ++ "\t" ++ spec ++ "\t" ++ ink
-          else if kind = "e2e" then
+          else if kind = "e2e" || kind = "e2elit" then
             let accepted := match findTagged "e2e" xs with
               | some (.atom "accept" :: _) => some true
               | some (.atom "reject" :: _) => some false
